@@ -23,8 +23,8 @@
 (*  3. a model of the implementation (best-first traversal of a tree with  *)
 (*     lower bounds, radius cut-off, filters, LIMIT and CURSOR counting:   *)
 (*     collection.Nearby, cmdNearby, scanWriter.pushObject) whose replies  *)
-(*     TLC checks against the statement on every reachable dataset, with   *)
-(*     named broken variants that TLC refutes.                             *)
+(*     TLC checks against the statement on every reachable dataset (module *)
+(*     NearbyDesign), with named broken variants that TLC refutes.         *)
 (*                                                                         *)
 (* Tolerances (all CONSTANTS):  metres are compared within Tol(d) =        *)
 (* max(TolAbs, d / TolDiv) (1 m / 0.5 %); membership of an object whose    *)
